@@ -164,6 +164,6 @@ macro_rules! hdr_bytes {
     };
 }
 // @h hdr_bytes_opt_u32 props=C06,C07 tier=quick kind=complete vars="v:Option<u32>" fns="ser/mod.rs:write_header,ser/mod.rs:serialize_on_field_write,ser/mod.rs:serialize"
-hdr_bytes!(hdr_bytes_opt_u32, Option<u32>, 0, 128, 9);
+hdr_bytes!(hdr_bytes_opt_u32, Option<u32>, 0, 128, 40);
 // @h hdr_bytes_vec_u16 props=C06,C07 tier=thorough kind=bounded bound="len<=2" vars="v:Vec<u16>" fns="ser/mod.rs:write_header"
-hdr_bytes!(hdr_bytes_vec_u16, Vec<u16>, 2, 128, 9);
+hdr_bytes!(hdr_bytes_vec_u16, Vec<u16>, 2, 128, 40);
